@@ -611,6 +611,149 @@ theorem mfr_loop_sim (n : Nat) : ∀ (k : Nat) (s : MultiFileReader.read.St β) 
       simp
       exact ⟨hr, hp⟩
 
+/-- `read(amt)`, `amt > 0`: the loop over the members — `MFR.read`, for every fuel the model's own bound allows -/
+theorem src_mfr_read_sized_eq_model (lfuel : Nat) (st : MS β) (m : MFR β) (n : Nat) (h : RelM st m)
+    (hfuel : m.files.length - m.index + 2 ≤ lfuel) :
+    (MultiFileReader.read lfuel st (some ((n + 1 : Nat) : Int))).1 = .ok (m.read (some (n + 1))).1 ∧
+    RelM (MultiFileReader.read lfuel st (some ((n + 1 : Nat) : Int))).2 (m.read (some (n + 1))).2 := by
+  have hmu : mfrMeasure m (n + 1) = m.files.length - m.index + 1 := by simp [mfrMeasure]
+  obtain ⟨s', hs', hrel, hparts⟩ := mfr_loop_sim lfuel (m.files.length - m.index + 2)
+    { self := st, amt := some ((n + 1 : Nat) : Int), loc1 := [], loc2 := 0 } m (n + 1) [] h rfl rfl
+    (by omega) (by omega)
+  have ht : truthyOptInt (some ((n + 1 : Nat) : Int)) = true := by
+    simp [truthyOptInt]; omega
+  have hj : s'.self.joiner = [] := hrel.joiner
+  simp only [MultiFileReader.read, MultiFileReader.read.body, seq_apply, cond_apply, ht, assign_apply, skip_apply,
+    decide_not, decide_true, Bool.not_true, Bool.false_eq_true, if_false, hs', ret_apply, finish_ret]
+  exact ⟨by simp [MFR.read, hj, join_nil, hparts], by simpa [MFR.read] using hrel⟩
+
+/-- the amount `read(amt)` asks the model for -/
+def amtOf : Option Int → Option Nat
+  | none => none
+  | some n => some n.toNat
+
+/-- `MultiFileReader.read(amt)` for `amt = None` or `amt ≥ 0` IS the model's `MFR.read` -/
+theorem src_mfr_read_eq_model (lfuel : Nat) (st : MS β) (m : MFR β) (amt : Option Int) (h : RelM st m)
+    (hamt : ∀ n, amt = some n → 0 ≤ n) (hfuel : m.files.length - m.index + 2 ≤ lfuel) :
+    (MultiFileReader.read lfuel st amt).1 = .ok (m.read (amtOf amt)).1 ∧
+    RelM (MultiFileReader.read lfuel st amt).2 (m.read (amtOf amt)).2 := by
+  rcases amt with _ | n
+  · exact src_mfr_read_all_eq_model lfuel st m none h rfl
+  · have hn := hamt n rfl
+    rcases hk : n.toNat with _ | k
+    · have : n = 0 := by omega
+      subst this
+      simpa [amtOf, MFR.read] using src_mfr_read_all_eq_model lfuel st m (some 0) h rfl
+    · have : n = ((k + 1 : Nat) : Int) := by omega
+      subst this
+      simpa [amtOf, hk] using src_mfr_read_sized_eq_model lfuel st m k h hfuel
+
+/-- a public call of the model's history language on the GENERATED definitions -/
+def srcStepM (lfuel : Nat) (st : MS β) : MOp → Except PyExc (Option (List β)) × MS β
+  | .read n => (match (MultiFileReader.read lfuel st (some n)).1 with | .ok v => .ok (some v) | .error e => .error e,
+                (MultiFileReader.read lfuel st (some n)).2)
+  | .readAll => (match (MultiFileReader.read lfuel st none).1 with | .ok v => .ok (some v) | .error e => .error e,
+                 (MultiFileReader.read lfuel st none).2)
+  | .seek0 => (match (MultiFileReader.seek st 0 0).1 with | .ok _ => .ok none | .error e => .error e,
+               (MultiFileReader.seek st 0 0).2)
+
+def srcRunM (lfuel : Nat) (st : MS β) : List MOp → List (Except PyExc (Option (List β))) × MS β
+  | [] => ([], st)
+  | op :: ops => ((srcStepM lfuel st op).1 :: (srcRunM lfuel (srcStepM lfuel st op).2 ops).1,
+                  (srcRunM lfuel (srcStepM lfuel st op).2 ops).2)
+
+theorem src_mfr_step_eq_model (lfuel : Nat) (st : MS β) (m : MFR β) (op : MOp) (h : RelM st m)
+    (hfuel : m.files.length + 2 ≤ lfuel) :
+    (srcStepM lfuel st op).1 = .ok (m.step op).1 ∧ RelM (srcStepM lfuel st op).2 (m.step op).2 := by
+  cases op with
+  | read n =>
+    have := src_mfr_read_eq_model lfuel st m (some (n : Int)) h (by intro k hk; cases hk; omega) (by omega)
+    simp only [amtOf, Int.toNat_natCast] at this
+    exact ⟨by simp [srcStepM, this.1, MFR.step], by simpa [srcStepM, MFR.step] using this.2⟩
+  | readAll =>
+    have := src_mfr_read_eq_model lfuel st m none h (by intro k hk; cases hk) (by omega)
+    simp only [amtOf] at this
+    exact ⟨by simp [srcStepM, this.1, MFR.step], by simpa [srcStepM, MFR.step] using this.2⟩
+  | seek0 =>
+    have := src_mfr_seek_eq_model st m h
+    exact ⟨by simp [srcStepM, this.1, MFR.step], by simpa [srcStepM, MFR.step] using this.2⟩
+
+/-- the initial object: what `MultiFileReader(*files)` stores for open files at their start -/
+def srcInitM (cs : List (List β)) : MS β :=
+  { fileobjs := cs.map (fun d => ⟨⟨d, 0⟩, false, false, false⟩), index := 0, joiner := [] }
+
+theorem RelM_init (cs : List (List β)) : RelM (srcInitM cs) (MFR.init cs) := by
+  refine ⟨by simp [srcInitM, MFR.init, Function.comp_def], ?_, rfl, rfl⟩
+  intro o ho
+  simp [srcInitM] at ho
+  obtain ⟨a, _, rfl⟩ := ho
+  rfl
+
+theorem RelM.length {st : MS β} {m : MFR β} (h : RelM st m) : m.files.length = st.fileobjs.length := by
+  rw [← h.files]; simp
+
+omit [Inhabited β] in
+theorem MFR.readLoop_length (k : Nat) (m : MFR β) (a : Nat) (parts : List (List β)) :
+    (MFR.readLoop k m a parts).2.files.length = m.files.length := by
+  induction k generalizing m a parts with
+  | zero => rfl
+  | succ k ih =>
+    unfold MFR.readLoop
+    split
+    · split
+      · split <;> (rw [ih]; simp [setAt])
+      · rfl
+    · rfl
+
+omit [Inhabited β] in
+theorem MFR.step_length (m : MFR β) (op : MOp) : (m.step op).2.files.length = m.files.length := by
+  cases op with
+  | read n =>
+    rcases n with _ | n
+    · simp [MFR.step, MFR.read, MFR.readAll]
+    · simp [MFR.step, MFR.read, MFR.readLoop_length]
+  | readAll => simp [MFR.step, MFR.read, MFR.readAll]
+  | seek0 => simp [MFR.step, MFR.seek0]
+
+theorem src_mfr_run_eq_model (lfuel : Nat) (st : MS β) (m : MFR β) (ops : List MOp) (h : RelM st m)
+    (hfuel : m.files.length + 2 ≤ lfuel) :
+    (srcRunM lfuel st ops).1 = (m.run ops).1.map .ok ∧ RelM (srcRunM lfuel st ops).2 (m.run ops).2 := by
+  induction ops generalizing st m with
+  | nil => exact ⟨rfl, h⟩
+  | cons op ops ih =>
+    have h1 := src_mfr_step_eq_model lfuel st m op h hfuel
+    have h2 := ih (srcStepM lfuel st op).2 (m.step op).2 h1.2 (by rw [MFR.step_length]; exact hfuel)
+    simp only [srcRunM, MFR.run, List.map_cons]
+    exact ⟨by rw [h1.1, h2.1], h2.2⟩
+
+/-- HISTORIES: from a fresh reader over open files, every history of `read(n)` / `read()` / `seek(0)` runs on the
+    generated definitions without an exception (in particular the `while` loop never runs out of the fuel
+    `number of files + 2`) and returns call by call what the model returns -/
+theorem src_mfr_history_refines (lfuel : Nat) (cs : List (List β)) (ops : List MOp) (hfuel : cs.length + 2 ≤ lfuel) :
+    (srcRunM lfuel (srcInitM cs) ops).1 = ((MFR.init cs).run ops).1.map .ok ∧
+    RelM (srcRunM lfuel (srcInitM cs) ops).2 ((MFR.init cs).run ops).2 :=
+  src_mfr_run_eq_model lfuel _ _ ops (RelM_init cs) (by simpa [MFR.init] using hfuel)
+
+/-- hence the property holds of what the SOURCE computes: the reader returns what ONE file holding the concatenation
+    of the members returns -/
+theorem src_mfr_concat (lfuel : Nat) (cs : List (List β)) (ops : List MOp) (hfuel : cs.length + 2 ≤ lfuel) :
+    (srcRunM lfuel (srcInitM cs) ops).1 = (MFR.specRun ⟨cs.flatten, 0⟩ ops).1.map .ok := by
+  rw [(src_mfr_history_refines lfuel cs ops hfuel).1, mfr_concat]
+
 end mfr
+
+/-- non-vacuity: three members, sized reads across the borders, a rewind, an unsized read -/
+example : (srcRunM 5 (srcInitM [[1, 2], [3, 4], [5]]) [.read 3, .read 3, .read 1, .seek0, .read 0, .seek0, .readAll]).1 =
+    ([.ok (some [1, 2, 3]), .ok (some [4, 5]), .ok (some []), .ok none, .ok (some [1, 2, 3, 4, 5]), .ok none,
+      .ok (some [1, 2, 3, 4, 5])] : List (Except PyExc (Option (List Nat)))) := by decide
+/-- too little fuel is reported as such (`OutOfFuel`), never as a wrong value -/
+example : (MultiFileReader.read 1 (srcInitM [[1, 2], [3, 4], [5]]) (some 4)).1 = (.error .OutOfFuel : Except PyExc (List Nat)) := by
+  decide
+/-- a closed member: ValueError from its `read`, the members before it keep what was read from them -/
+example : (MultiFileReader.read 9 { fileobjs := [⟨⟨[1], 0⟩, false, false, false⟩, ⟨⟨[2], 0⟩, true, false, false⟩],
+                                    index := 0, joiner := [] } (some 3)) =
+    ((.error .ValueError : Except PyExc (List Nat)),
+     { fileobjs := [⟨⟨[1], 1⟩, false, false, false⟩, ⟨⟨[2], 0⟩, true, false, false⟩], index := 1, joiner := [] }) := by
+  decide
 
 end C18
